@@ -184,6 +184,17 @@ func runC42(c *core.Ctx) error {
 		distinct += g.Replayed
 	}
 	c.Set("distinct_nontrivial", distinct)
+	acc, rej := 0, 0
+	for _, g := range gstats {
+		acc += g.ImplOutcomes["AcquireFast"] + g.ImplOutcomes["TryAcquireOK"] + g.ImplOutcomes["CtxDoneAlreadyReady"] + g.AdmittingReplayed
+		rej += g.ImplOutcomes["TryAcquireFail"] + g.ImplOutcomes["CtxDoneRemove"] + g.ImplOutcomes["DoomedCancel"]
+	}
+	c.Set("impl_accepted", acc) // replayed calls the implementation granted (fast path, TryAcquire true, wake-ups of queued waiters)
+	c.Set("impl_rejected", rej) // replayed calls it refused or that ended with ctx.Err()
+	if len(gstats) == len(jobs) && c.NViolations() == 0 && (acc == 0 || rej == 0) {
+		errs2 := fmt.Errorf("vacuous: accepted=%d rejected=%d", acc, rej)
+		c.Logf("%v", errs2)
+	}
 	c.Set("rule", "model alone: TLC exhaustive on bounded Semaphore (invariants, action properties, liveness under fairness); conformance: every transition of the dumped state graph replayed on the real semaphore with goroutines as processes (state, hook event, call results compared with the target node) + concurrent mixes under -race validated by TLC against TraceSemaphore (hook events emitted under s.mu)")
 	c.Assume("model bounds: 3 processes, weights <= 3, sizes <= 3, outstanding forced weight <= 3; one Acquire/TryAcquire in flight per process; processes release only what they hold (Release panic path not modelled)")
 	c.Assume("AcquireWake transitions (the goroutine notices its closed channel) have no observable counterpart of their own: the replay waits for the return of every admitted goroutine on the admitting transition")
